@@ -4,6 +4,7 @@ package dart
 
 import (
 	"fmt"
+	"go/types"
 	"strings"
 
 	an "github.com/benoitkugler/gomacro/analysis"
@@ -44,7 +45,8 @@ func typeName(typ an.Type) string {
 	case *an.Map:
 		return fmt.Sprintf("Map<%s,%s>", typeName(typ.Key), typeName(typ.Elem))
 	case *an.Named, *an.Struct, *an.Enum, *an.Union: // these types are always named
-		return strings.Title(an.LocalName(typ)) // Dart convention
+		// distinct instantiations of a generic type are distinct types
+		return strings.Title(an.LocalName(typ)) + gen.TypeArgsSuffix(typ.Type().(*types.Named)) // Dart convention
 	default:
 		panic(an.ExhaustiveTypeSwitch + fmt.Sprintf(": %T", typ))
 	}
